@@ -24,6 +24,14 @@ package main
 //        step-up handed back  -> like cg, with <iat> = the LOGIN moment, plus <iat of the cookie presented to certgen>
 //   secs <int64 ns>
 //        -> decimal value of uint64(time.Duration(ns).Seconds()) as computed by this platform
+//   par <ssh|x509|k8s> <q|m> <cookie|cert>:<ageSeconds>:<hex duration | ~> ... (2 or more)
+//        OVERLAPPING requests of one user, each on its own session (own authentication moment), all for the same
+//        public key: the first one listed is started alone and parked inside the CA signer (crypto.Signer wrapper
+//        around state.Signer whose first Sign() waits); while it is parked the others are started; the signer is
+//        released once every other request has either answered or reached the signer itself (or a budget ran out:
+//        they are waiting for something else).  Each request is answered with its own certificate and reported
+//        exactly like a cg op (own <iat>, own clock bracket)
+//        -> <Sign() calls seen> <1 if the first request was parked> <n released because budget ran out> | <cg result 1> | <cg result 2> ...
 
 import (
 	"bytes"
@@ -46,6 +54,8 @@ import (
 	"net/url"
 	"strconv"
 	"strings"
+	"sync"
+	"sync/atomic"
 	"testing"
 	"time"
 
@@ -194,6 +204,25 @@ func vfC03CookieFrom(rr *httptest.ResponseRecorder) *http.Cookie {
 		}
 	}
 	return out
+}
+
+// vfC03ParkingSigner wraps a CA signer: the first Sign() call announces itself and waits for release,
+// later calls go straight through.
+type vfC03ParkingSigner struct {
+	inner   crypto.Signer
+	calls   int32
+	entered chan struct{}
+	release chan struct{}
+}
+
+func (s *vfC03ParkingSigner) Public() crypto.PublicKey { return s.inner.Public() }
+
+func (s *vfC03ParkingSigner) Sign(rnd io.Reader, digest []byte, opts crypto.SignerOpts) ([]byte, error) {
+	if atomic.AddInt32(&s.calls, 1) == 1 {
+		close(s.entered)
+		<-s.release
+	}
+	return s.inner.Sign(rnd, digest, opts)
 }
 
 func TestVerifC03(t *testing.T) {
@@ -417,6 +446,140 @@ func TestVerifC03(t *testing.T) {
 			}
 			d := time.Duration(n)
 			vio.emit("%d", uint64(d.Seconds()))
+		case "par":
+			if len(f) < 5 {
+				vio.emit("bad-op")
+				continue
+			}
+			q0 := url.Values{}
+			keyData := testUserSSHPublicKey
+			switch f[1] {
+			case "ssh":
+			case "x509":
+				q0.Set("type", "x509")
+				keyData = testUserPEMPublicKey
+			case "k8s":
+				q0.Set("type", "x509-kubernetes")
+				keyData = testUserPEMPublicKey
+			default:
+				vio.emit("bad-op")
+				continue
+			}
+			type parReq struct {
+				req    *http.Request
+				parsed string
+				iatNs  string
+				out    string
+			}
+			var reqs []*parReq
+			bad := false
+			// every credential is minted while state.Signer is still the real key
+			for _, spec := range f[3:] {
+				sp := strings.Split(spec, ":")
+				if len(sp) != 3 {
+					bad = true
+					break
+				}
+				age, err := strconv.ParseInt(sp[1], 10, 64)
+				if err != nil {
+					bad = true
+					break
+				}
+				pr := &parReq{parsed: "absent"}
+				q := url.Values{}
+				for k, v := range q0 {
+					q[k] = v
+				}
+				var fields [][2]string
+				if sp[2] != "~" {
+					d, ok := vfUnhex(sp[2])
+					if !ok {
+						bad = true
+						break
+					}
+					if pd, err := time.ParseDuration(d); err != nil {
+						pr.parsed = "err"
+					} else {
+						pr.parsed = strconv.FormatInt(int64(pd), 10)
+					}
+					if f[2] == "q" {
+						q.Set("duration", d)
+					} else {
+						fields = append(fields, [2]string{"duration", d})
+					}
+				}
+				pr.req = vfC03KeyRequest("/certgen/username", q, fields, keyData)
+				nowS := time.Now().Unix()
+				iat := nowS - age
+				switch sp[0] {
+				case "cookie":
+					nbf := iat
+					if nbf > nowS {
+						nbf = nowS
+					}
+					pr.req.AddCookie(vfC03Cookie(t, state, "username", AuthTypePassword, iat, nbf, nowS+3600))
+				case "cert":
+					chain := vfC03ClientCert(t, state, "username", time.Unix(iat, 0))
+					pr.req.TLS = &tls.ConnectionState{VerifiedChains: [][]*x509.Certificate{chain}, PeerCertificates: chain[:1]}
+				default:
+					bad = true
+				}
+				pr.iatNs = strconv.FormatInt(iat*1000000000, 10)
+				reqs = append(reqs, pr)
+			}
+			if bad || len(reqs) < 2 {
+				vio.emit("bad-op")
+				continue
+			}
+			realSigner := state.Signer
+			parking := &vfC03ParkingSigner{inner: realSigner, entered: make(chan struct{}), release: make(chan struct{})}
+			state.Mutex.Lock()
+			state.Signer = parking
+			state.Mutex.Unlock()
+			var wg sync.WaitGroup
+			var answered int32
+			serve := func(pr *parReq) {
+				defer wg.Done()
+				status, va, vb, tb, ta := vfC03Window(state, pr.req, f[1])
+				pr.out = fmt.Sprintf("%s %s %s %d %d %s %s", status, pr.parsed, pr.iatNs, tb, ta, va, vb)
+				atomic.AddInt32(&answered, 1)
+			}
+			wg.Add(1)
+			go serve(reqs[0])
+			parked := false
+			firstWait := time.Now().Add(20 * time.Second)
+			for time.Now().Before(firstWait) && atomic.LoadInt32(&answered) == 0 && !parked {
+				select {
+				case <-parking.entered:
+					parked = true
+				case <-time.After(2 * time.Millisecond):
+				}
+			}
+			for _, pr := range reqs[1:] {
+				wg.Add(1)
+				go serve(pr)
+			}
+			// let the others get as far as they can: answer, or reach the signer themselves
+			budget := time.Now().Add(400 * time.Millisecond)
+			n := int32(len(reqs))
+			ranOut := 0
+			for atomic.LoadInt32(&parking.calls)+atomic.LoadInt32(&answered) < n {
+				if !time.Now().Before(budget) {
+					ranOut = int(n - atomic.LoadInt32(&parking.calls) - atomic.LoadInt32(&answered))
+					break
+				}
+				time.Sleep(2 * time.Millisecond)
+			}
+			close(parking.release)
+			wg.Wait()
+			state.Mutex.Lock()
+			state.Signer = realSigner
+			state.Mutex.Unlock()
+			outs := []string{fmt.Sprintf("%d %s %d", atomic.LoadInt32(&parking.calls), vfBool(parked), ranOut)}
+			for _, pr := range reqs {
+				outs = append(outs, pr.out)
+			}
+			vio.emit("%s", strings.Join(outs, " | "))
 		case "cg":
 			if len(f) != 6 {
 				vio.emit("bad-op")
